@@ -21,7 +21,7 @@ ASSUMPTIONS = [
     'dict order is insertion order (deterministic in Python) and is not permuted; pattern.py and the proof libraries are not rewritten',
     '"what was serialised before" is covered by running every sequence of up to two earlier serialisations from a menu of modules in one fresh child process and comparing the target\'s six outputs with those of a child that serialises only the target; separate OS processes differ only in these two respects',
 ]
-OUTSIDE = 'sets above 4 elements are permuted in two orders only; histories longer than two serialisations; modules outside the menu'
+OUTSIDE = 'sets above 4 elements are permuted in two orders only; histories longer than two serialisations (quick: two only for four of the eight targets, optimised); modules outside the menu'
 EXPLANATION = (
     'bounded exhaustive exploration (symx forking, no sampling of seeds) of every iteration order of hash-ordered containers along the serialisation and translation paths: '
     'the six output streams must be identical to those of the natural order on every path; histories are enumerated exhaustively over a menu in fresh processes'
@@ -232,7 +232,7 @@ def h_order_refl(ctx: Any, nterms: int, small: bool = False, twin: bool = False)
 
 # -- histories in fresh processes --------------------------------------------------------------------
 
-MENU = ('direct', 'schematic', 'chain', 'small_theory', 'neg-known', 'neg-raw')
+MENU = ('direct', 'schematic', 'chain', 'small_theory', 'neg-known', 'neg-raw', 'rev-symbols', 'three-imports')
 
 
 def _child(seq: list) -> Any:
@@ -265,7 +265,7 @@ def histories(tier: str) -> tuple[list, dict]:
                 for hist in product(MENU, repeat=k):
                     tasks.append((list(hist), target, opt))
     if tier == 'quick':
-        tasks = [t for t in tasks if len(t[0]) <= 1 or (t[2] and t[0][0] != t[0][1])]
+        tasks = [t for t in tasks if len(t[0]) <= 1 or (t[2] and t[0][0] != t[0][1] and t[1] in ('chain', 'neg-known', 'rev-symbols', 'three-imports'))]
     with mp.get_context('fork').Pool(os.cpu_count() or 4) as pool:
         results = pool.map(_hist_task, tasks, chunksize=2)
     base = {(t[1], t[2]): r for t, r in results if not t[0]}
@@ -291,7 +291,7 @@ def levels(tier: str) -> list[dict]:
     q = tier == 'quick'
     bud = 120 if q else 1800
     L: list[dict] = []
-    for mod in ('chain', 'chain2', 'small_theory', 'direct') + (() if q else ('schematic', 'substitution')):
+    for mod in ('chain', 'chain2', 'small_theory', 'direct', 'three-imports') + (() if q else ('schematic', 'substitution')):
         for opt in (True, False):
             dv = 1 if mod in ('substitution',) else 2
             L.append(dict(label=f'orders/{mod}/optimize={opt}/deviating-iterations<={dv}', module=M, fn='h_order', kwargs=dict(module=mod, optimize=opt, deviations=dv), budget_s=bud, required=True, twin=(mod == 'chain' and opt)))
